@@ -183,6 +183,31 @@ example : closedAt 0 (visit sampleBody) = true ∧ endDepth 0 (visit sampleBody)
 /-- …whereas a bare pattern is not (it binds at its own level) -/
 example : closedAt 0 (visit (.mk .pId (some 2) 7 [] : Node Nat)) = false := by decide
 
+/-- **`iflet_scope_exits_before_else`** (`visit_if_else`, `IfElseCondition::Guard`): the names
+bound by an `if let` pattern are in scope exactly in the then-branch — the else part (incl. an
+`else if let` continuation) is analysed in the very context that was current after the matched
+expression, whatever the pattern and the then-branch bind. -/
+theorem iflet_scope_exits_before_else (p g e1 : Node α) (st : St α) (s : Scope α) (rest : List (Scope α))
+    (h : (run (visit g) st).locals = s :: rest) (hw : WF (run (visit g) st)) :
+    (run (visit g ++ ([.push] ++ (visit p ++ visit e1) ++ [.pop .discard 0])) st).locals = s :: rest := by
+  rw [run_append]
+  exact (scope_restores (bal_append (visit_bal p 0) (visit_bal e1 0)) .discard 0 _ s rest h hw).1
+
+/-- the model's `if let` has exactly that shape -/
+theorem visit_ifGuard_shape (p g e1 e2 : Node α) (loc : Nat) :
+    visit (.mk .ifGuard none loc [p, g, e1, e2])
+      = (visit g ++ ([.push] ++ (visit p ++ visit e1) ++ [.pop .discard 0])) ++ visit e2 := by
+  simp [visit, List.append_assoc]
+
+/-- fault class (seed C13g): popping the if-let scope only after the else part lets the else part see
+(and collide with) the pattern's names. -/
+theorem delayed_pop_counterexample :
+    (run [Ev.push, .define 1 10, .pop .discard 0, .use 1 11 false] (init : St Nat)).errors ≠ [] ∧
+    (run [Ev.push, .define 1 10, .use 1 11 false, .pop .discard 0] (init : St Nat)).errors = [] ∧
+    (run [Ev.push, .define 1 10, .pop .discard 0, .push, .define 1 12, .pop .discard 0] (init : St Nat)).errors = [] ∧
+    (run [Ev.push, .define 1 10, .push, .define 1 12, .pop .discard 0, .pop .discard 0] (init : St Nat)).errors ≠ [] := by
+  decide
+
 end SamVerif.Scope
 
 namespace SamVerif.Sig
